@@ -17,7 +17,10 @@ MANIFEST = dict(
          'overlap <=> build refuses with TransactionBuilderException; body inputs strictly ascending in (tx id bytes, index), '
          'with the lemma that ordering lower-case hex strings = ordering bytes (all byte strings); on a chain that MOVES between '
          'builds of one builder every selected UTxO was handed over by the caller, selected by an earlier build, or is reported '
-         'by the context in force at that build (C09_history_live). Partial: "caller objects '
+         'by the context in force at that build (C09_history_live); the body input set as pycardano writes it -- an '
+         'OrderedSet keyed by str(item) -- equals the set by equality whenever the key is injective on the references in play '
+         '(C09_ordered_set_key, KeyedSet.v), a hypothesis decided per case on the keys the implementation computes (keys_ok), and '
+         'without it an explicit input is dropped (C09_non_injective_key_refuted). Partial: "caller objects '
          'unmodified" is monitored (byte/field snapshots around every build), not proved.',
     note='Trusted: Coq kernel+vm_compute; hand model Inputs.v of the input slice of TransactionBuilder.build tied by exact '
          'correspondence on the real build() (ordered builder.inputs, ordered body inputs, exception kind) with the selector '
